@@ -24,11 +24,16 @@ EXTENDS Integers, Sequences, FiniteSets, TLC
 CONSTANTS MaxCols,      \* bind metadata has 1..MaxCols columns
           MaxPk,        \* 0..MaxPk of them are partition key components (any positions, any key order)
           PVs,          \* native protocol versions
-          NVals,        \* distinct non-null values per column (1 or 2)
+          NVals,        \* distinct non-null values per int column (1 or 2; the second is negative)
+          NTextVals,    \* distinct non-null values per text column (1 or 2; the second is the EMPTY string)
           Partial,      \* TRUE: also shapes whose table has one more partition key column that is not bound
           MTypes,       \* C38: key column types
           MMaxPk,       \* C38: 1..MMaxPk partition key columns
-          MOps          \* C38: mapper operations (opaque to this module)
+          MOps,         \* C38: mapper operations (opaque to this module)
+          MOrders,      \* C38: what the application defined and used BEFORE the model of the case (opaque here):
+                        \*      "base_first": models keyed by the base column classes (Integer, Text),
+                        \*      "subclass_first": models keyed by their subclasses (BigInt, SmallInt, TinyInt, Ascii)
+          MEmpty        \* C38: TRUE: text / blob key columns also take the empty value
 
 -----------------------------------------------------------------------------
 \* Bytes are sequences of 0..255.
@@ -46,6 +51,14 @@ Component(b) == BE(2, Len(b)) \o b \o <<0>>
 \* Cassandra's partition key bytes for the component encodings `parts` (in partition key order)
 KeyBytes(parts) == IF Len(parts) = 1 THEN parts[1]
                    ELSE Concat([i \in 1..Len(parts) |-> Component(parts[i])])
+
+\* An EMPTY component is a component like any other (the empty string '' and the empty blob serialize to no bytes;
+\* that is not null): alone it is the empty key, inside a composite it is 0x0000 ++ (nothing) ++ 0x00.
+ASSUME EmptyComponentEncoding ==
+    /\ Component(<<>>) = <<0, 0, 0>>
+    /\ KeyBytes(<< <<>> >>) = <<>>
+    /\ KeyBytes(<< <<>>, <<7>> >>) = <<0, 0, 0, 0, 1, 7, 0>>
+    /\ KeyBytes(<< <<7>>, <<>> >>) = <<0, 1, 7, 0, 0, 0, 0>>
 
 \* An independent reader of the composite layout (what the server's CompositeType does when it splits a key)
 RECURSIVE SplitComposite(_)
@@ -80,7 +93,8 @@ ColVal(c, k) ==
 \* What the caller supplies for one bind marker.  k: "val" | "null" | "unset" | "missing" (name absent from a dict)
 Given(c, k, n) == [k |-> k, ty |-> ColType(c), v |-> IF k = "val" THEN ColVal(c, n) ELSE V(0, <<>>)]
 
-SeqEntries(c) == {Given(c, "val", n) : n \in 1..NVals} \cup {Given(c, "null", 0), Given(c, "unset", 0)}
+NV(c) == IF ColType(c) = "int" THEN NVals ELSE NTextVals
+SeqEntries(c) == {Given(c, "val", n) : n \in 1..NV(c)} \cup {Given(c, "null", 0), Given(c, "unset", 0)}
 MapEntries(c) == SeqEntries(c) \cup {Given(c, "missing", 0)}
 
 \* all injective sequences over S of length k
@@ -112,7 +126,8 @@ RoutingIndexes(pk, partial) == IF partial THEN <<>> ELSE pk
 
 RK(t, b) == [t |-> t, b |-> b]
 \* t = "none": the statement has no routing key; "any": the property does not say (a null key component is
-\* not a partition key Cassandra can hash); "bytes": exactly these bytes
+\* not a partition key Cassandra can hash); "bytes": exactly these bytes - possibly none at all (b = <<>>, the
+\* key of a single empty component), which is a routing key and not the absence of one
 RoutingKey(slots, rki) ==
     IF rki = <<>> THEN RK("none", <<>>)
     ELSE IF \E j \in 1..Len(rki) : slots[rki[j]].t # "bytes" THEN RK("any", <<>>)
@@ -176,14 +191,17 @@ MVal(ty, k) ==
       [] ty = "smallint" -> IF k = 1 THEN V(513, <<>>) ELSE V(0 - 3, <<>>)
       [] ty = "tinyint"  -> IF k = 1 THEN V(5, <<>>) ELSE V(0 - 4, <<>>)
       [] ty = "boolean"  -> IF k = 1 THEN V(1, <<>>) ELSE V(0, <<>>)
-      [] ty = "text"     -> IF k = 1 THEN V(0, <<97>>) ELSE V(0, <<98, 99, 100>>)
+      [] ty = "text"     -> IF k = 1 THEN V(0, <<97>>) ELSE IF k = 2 THEN V(0, <<98, 99, 100>>) ELSE V(0, <<>>)
       [] ty = "ascii"    -> IF k = 1 THEN V(0, <<120, 121>>) ELSE V(0, <<113>>)
-      [] ty = "blob"     -> IF k = 1 THEN V(0, <<0, 255>>) ELSE V(0, <<1, 0, 0>>)
+      [] ty = "blob"     -> IF k = 1 THEN V(0, <<0, 255>>) ELSE IF k = 2 THEN V(0, <<1, 0, 0>>) ELSE V(0, <<>>)
       [] ty = "uuid"     -> IF k = 1 THEN V(0, [i \in 1..16 |-> i]) ELSE V(0, [i \in 1..16 |-> 255 - i])
 
+NMVals(ty) == IF MEmpty /\ ty \in {"text", "blob"} THEN 3 ELSE 2
+
 MapperInit ==
-    \E k \in 1..MMaxPk : \E tys \in [1..k -> MTypes] : \E vs \in [1..k -> 1..2] : \E op \in MOps :
-       /\ case = [prop |-> "C38", tys |-> tys, vals |-> [i \in 1..k |-> MVal(tys[i], vs[i])], op |-> op]
+    \E k \in 1..MMaxPk : \E tys \in [1..k -> MTypes] : \E vs \in [1..k -> 1..3] : \E op \in MOps : \E ord \in MOrders :
+       /\ \A i \in 1..k : vs[i] <= NMVals(tys[i])
+       /\ case = [prop |-> "C38", tys |-> tys, vals |-> [i \in 1..k |-> MVal(tys[i], vs[i])], op |-> op, order |-> ord]
        /\ out = [rk |-> RK("bytes", KeyBytes([i \in 1..k |-> Enc(tys[i], MVal(tys[i], vs[i]))]))]
 
 Next == UNCHANGED vars          \* the cases are the initial states
@@ -242,5 +260,8 @@ Witness_PaddedUnset == ~(IsSeq /\ out.accept /\ Len(case.ents) < case.n /\ Len(o
 Witness_KeyOrderNotMarkerOrder == ~(out.accept /\ out.rk.t = "bytes" /\ Len(case.pk) >= 2 /\ case.pk[1] > case.pk[2])
 Witness_ShortBeforeV4 == ~(out.accept /\ out.reject)
 Witness_NullKeyComponent == ~(out.accept /\ out.rk.t = "any")
+Witness_EmptySingleKey == ~(out.accept /\ out.rk.t = "bytes" /\ Len(case.pk) = 1 /\ out.rk.b = <<>>)
+Witness_EmptyInComposite == ~(out.accept /\ out.rk.t = "bytes" /\ Len(case.pk) >= 2
+                              /\ \E j \in 1..Len(case.pk) : out.slots[case.pk[j]].b = <<>>)
 Witness_MapperComposite == ~(Len(case.tys) >= 2)
 =============================================================================
